@@ -13,9 +13,9 @@ UNITS_MENUS = {
                          'm_b_bi', 'd_ka_b', 'd_a2_ka', 'p_ka_2', 'p_ka_m1', 'p_ka_3', 'p_a_0'], 5)],
     'thorough': [('exist', ['tA', 'tB', 'tAB', 'tA2', 'tBi', 'tApB', 'ka', 'cb', 'ha', 'm_ka_b', 'm_b_ka', 'm_ka_ka',
                             'm_ka_cb', 'm_b_bi', 'm_a_ha', 'd_ka_b', 'd_a2_ka', 'd_ka_ha', 'p_ka_2', 'p_ka_m1',
-                            'p_ka_3', 'p_a_0', 'p_ha_1'], 7),
+                            'p_ka_3', 'p_a_0', 'p_ha_1'], 6),
                  ('noref', ['tA', 'tM', 'tMpA', 'p', 'q', 'ka', 'ppa', 'qpa', 'm_ppa_a', 'm_ppa_ka', 'm_p_a',
-                            'd_p_a', 'd_p_ka', 'd_p_q', 'd_p_p', 'm_p_q'], 7)]}
+                            'd_p_a', 'd_p_ka', 'd_p_q', 'd_p_p', 'm_p_q'], 6)]}
 
 
 def programs(ctx):
